@@ -1,5 +1,7 @@
 import LhasaV.Model.Reader
 import LhasaV.Model.Fs
+import LhasaV.Model.Glob
+import LhasaV.Model.Safe
 /-!
 Model of the extraction side of the tool and library: `src/extract.c` (`file_full_path`,
 `make_parent_directories`, overwrite policy, the `x`/`e` loop), the file-system half of
@@ -19,6 +21,7 @@ structure Opts where
   dryRun : Bool := false
   extractPath : Option Bytes := none     -- w=DIR
   usePath : Bool := true                 -- cleared by `i`
+  filters : List Bytes := []             -- wildcard arguments after the archive name
 deriving Repr
 
 def stripSlashes (s : Bytes) : Bytes := s.dropWhile (· == 0x2f)
@@ -89,6 +92,12 @@ def setDirectoryMetadata (fs : Fs.St) (h : Hdr) (path : Bytes) : Fs.St :=
   let fs := if h.timestamp ≠ 0 then (Fs.utime fs path h.timestamp).2 else fs
   if hasFlag h Gen.flagUnixPerms then (Fs.chmod fs path h.unixPerms).2 else fs
 
+/-- `path_passes_through_symlink(filename)`: some proper prefix ending before a '/' (other than a
+leading one) is a symbolic link -/
+def passesThroughSymlink (fs : Fs.St) (filename : Bytes) : Bool :=
+  ((List.range filename.length).filter (fun i => i ≠ 0 ∧ filename.getD i 0 == 0x2f)).any
+    (fun i => Fs.isSymlink fs (filename.take i))
+
 /-- `lha_reader_extract(reader, filename, …)` on the current entry: result and new states -/
 def readerExtract (rd : Reader.St) (fs : Fs.St) (filename : Bytes) : Bool × Reader.St × Fs.St :=
   match rd.currType, rd.curr with
@@ -134,6 +143,8 @@ def readerExtract (rd : Reader.St) (fs : Fs.St) (filename : Bytes) : Bool × Rea
   | .fakeDir, some c =>
     (true, (Reader.extract rd true).2, setDirectoryMetadata fs c.h filename)
   | .deferred, some c =>
+    -- a deferred link is only created where no directory component of its path is a symbolic link
+    if passesThroughSymlink fs filename then (false, (Reader.extract rd false).2, fs) else
     let l := Fs.archSymlink fs filename (c.h.symlinkTarget.getD [])
     (l.1, (Reader.extract rd l.1).2, l.2)
   | _, _ => (false, rd, fs)
@@ -174,11 +185,52 @@ def extractLoop : Nat → St → St
     match Reader.next s.rd with
     | .error _ => { s with result := false, out := "fault" :: s.out }
     | .ok (none, rd) => { s with rd := rd }
-    | .ok (some c, rd) => extractLoop fuel (extractArchivedFile { s with rd := rd } c.h)
+    | .ok (some c, rd) =>
+      -- `lha_filter_next_file`: entries that match no wildcard argument are passed over
+      if !Glob.matchesFilter s.opts.filters c.h then extractLoop fuel { s with rd := rd }
+      else extractLoop fuel (extractArchivedFile { s with rd := rd } c.h)
 
 /-- `lha x[options] archive` from directory `cwd` of the file system -/
 def run (archive : Array UInt8) (o : Opts) (fs : Fs.St) (answers : Bytes) : St :=
   let rd : Reader.St := { basic := { stream := { kind := .seekable, data := archive } }, mktime := Header.dosTimeUTC }
   extractLoop (2 * archive.size + 16) { rd := rd, fs := fs, opts := o, answers := answers }
+
+/-! ### `lha p`: print the selected members -/
+
+/-- `print_archived_file`: 512-byte reads until an empty one -/
+def printLoop : Nat → Reader.St → List UInt8 → List UInt8 × Reader.St
+  | 0, s, acc => (acc, s)
+  | fuel+1, s, acc =>
+    let r := Reader.read s 512
+    if r.1.isEmpty then (acc, r.2) else printLoop fuel r.2 (acc ++ r.1)
+
+/-- the loop of `print_archive`: standard output so far -/
+def printArchiveLoop (o : Opts) : Nat → Reader.St → List UInt8 → List UInt8
+  | 0, _, out => out
+  | fuel+1, rd, out =>
+    match Reader.next rd with
+    | .error _ => out
+    | .ok (none, _) => out
+    | .ok (some c, rd) =>
+      if !Glob.matchesFilter o.filters c.h then printArchiveLoop o fuel rd out else
+      let h := c.h
+      let isNormal := h.method != "-lhd-".toUTF8.toList
+      let full := fileFullPath h o
+      let banner : List UInt8 :=
+        if o.quiet < 2 then
+          match h.symlinkTarget with
+          | some tg => Safe.safeOutput ("Symbolic Link ".toUTF8.toList ++ full ++ " -> ".toUTF8.toList ++ tg) ++ [0x0a]
+          | none =>
+            if isNormal then "::::::::\n".toUTF8.toList ++ Safe.safeOutput full ++ "\n::::::::\n".toUTF8.toList else []
+        else []
+      if isNormal then
+        let r := printLoop (h.length + 2) rd []
+        printArchiveLoop o fuel r.2 (out ++ banner ++ r.1)
+      else printArchiveLoop o fuel rd (out ++ banner)
+
+/-- `lha p[options] archive [patterns]`: the bytes written to standard output -/
+def print (archive : Array UInt8) (o : Opts) : List UInt8 :=
+  let rd : Reader.St := { basic := { stream := { kind := .seekable, data := archive } }, mktime := Header.dosTimeUTC }
+  printArchiveLoop o (2 * archive.size + 16) rd []
 
 end LhasaV.Extract
